@@ -355,3 +355,65 @@ func VP_C14_burst() {
 	}
 	vp.Cover("end")
 }
+
+// padding a re-opened region: layouts with holes before, between and after the
+// chunks, files padded or not, backed by a plain seeker, a WriterAt or a file
+// that can also be truncated (like *os.File); after PadToFullSector the size is
+// a whole number of sectors, nothing is lost and a further write still works.
+func VP_C14_pad_loaded() {
+	const S = 7
+	var chunks []vpChunk
+	a := vpChunk{x: vpCoords[0][0], z: vpCoords[0][1], sec: int32(2 + vp.Choice(4)), cnt: int32(1 + vp.Choice(2))}
+	chunks = append(chunks, a)
+	if vp.Choice(2) == 1 {
+		b := vpChunk{x: vpCoords[1][0], z: vpCoords[1][1], sec: int32(2 + vp.Choice(5)), cnt: 1}
+		vp.Assume(b.sec+b.cnt <= a.sec || a.sec+a.cnt <= b.sec)
+		chunks = append(chunks, b)
+	}
+	for i := range chunks {
+		c := &chunks[i]
+		c.length = 4096*int(c.cnt) - 4 - 100*vp.Choice(2)
+		c.first, c.end = vp.Byte(), vp.Byte()
+	}
+	img := vpBuildUnpadded(chunks, S)
+	if vp.Choice(2) == 1 {
+		img = vpBuild(chunks, S)
+	}
+	var f interface {
+		Read([]byte) (int, error)
+		Write([]byte) (int, error)
+		Seek(int64, int) (int64, error)
+	}
+	var mem *vpMemFile
+	switch vp.Choice(3) {
+	case 0:
+		mem = &vpMemFile{b: img}
+		f = mem
+	case 1:
+		at := &vpMemFileAt{vpMemFile{b: img}}
+		mem, f = &at.vpMemFile, at
+	default:
+		tr := &vpMemFileTrunc{vpMemFileAt{vpMemFile{b: img}}}
+		mem, f = &tr.vpMemFile, tr
+	}
+	r, err := Load(f)
+	vp.Assert(err == nil, "Load of a valid image succeeds")
+	vp.Assert(r.PadToFullSector() == nil, "pad")
+	vp.Assert(len(mem.b)%4096 == 0, "padded to a sector multiple")
+	vpValidAnvil(mem.b)
+	for _, c := range chunks {
+		vpExpectChunk(r, c, "chunk after padding")
+	}
+	r2, err := Load(&vpMemFile{b: append([]byte{}, mem.b...)})
+	vp.Assert(err == nil, "reload succeeds")
+	for _, c := range chunks {
+		vpExpectChunk(r2, c, "after pad and reload")
+	}
+	data := []byte{vp.Byte()}
+	vp.Assert(r.WriteSector(vpCoords[2][0], vpCoords[2][1], data) == nil, "a later write succeeds")
+	vpValidAnvil(mem.b)
+	for _, c := range chunks {
+		vpExpectChunk(r, c, "existing chunk after a later write")
+	}
+	vp.Cover("end")
+}
